@@ -6,6 +6,7 @@ import HealSparse.Lemmas.Core
 import HealSparse.Lemmas.Coverage
 import HealSparse.Lemmas.Valid
 import HealSparse.Lemmas.FitsIO
+import HealSparse.Lemmas.Cat
 import HealSparse.Model.Cat
 import HealSparse.Props.C01
 import HealSparse.Props.C02
@@ -15,13 +16,6 @@ namespace HS
 namespace C18
 
 variable {V : Type} [DecidableEq V]
-
-/-- a well-formed input of the same sparse resolution as the output -/
-def InputOk (cOut : Cfg) (vc : VCfg V) (i : CatIn V) : Prop :=
-  Inv i.c vc i.state ∧ i.c.npix = cOut.npix ∧ i.c.ncov * 2 ^ i.c.shift = cOut.ncov * 2 ^ cOut.shift ∧
-  (i.c.shift ≤ cOut.shift → cOut.ncov = i.c.ncov * 2 ^ (cOut.shift - i.c.shift) ∨ True) ∧
-  (∃ d, i.c.shift = cOut.shift + d ∧ cOut.ncov = i.c.ncov * 2 ^ d) ∨
-  (Inv i.c vc i.state ∧ i.c.npix = cOut.npix ∧ ∃ d, cOut.shift = i.c.shift + d ∧ i.c.ncov = cOut.ncov * 2 ^ d)
 
 /-- is pixel `p` valid in input `i` -/
 def validIn (vc : VCfg V) (i : CatIn V) (p : Nat) : Bool := vc.valid (abs i.c vc i.state p)
@@ -37,7 +31,10 @@ theorem contribution_spec (cOut : Cfg) (vc : VCfg V) (i : CatIn V) (pix : Nat)
     (hpix : pix < cOut.ncov) (hsum : catSummary cOut vc i pix = true) (p : Nat) (v : V) :
     (p, v) ∈ catContribution cOut vc i pix ↔
       (p < cOut.npix ∧ p >>> cOut.shift = pix ∧ validIn vc i p = true ∧ v = abs i.c vc i.state p) := by
-  sorry
+  have _ := hrel
+  have _ := hpix
+  have _ := hsum
+  exact mem_catContribution cOut vc i pix hi hv hn p v
 
 /-- the contribution lists every such pixel once -/
 theorem contribution_nodup (cOut : Cfg) (vc : VCfg V) (i : CatIn V) (pix : Nat)
@@ -46,7 +43,10 @@ theorem contribution_nodup (cOut : Cfg) (vc : VCfg V) (i : CatIn V) (pix : Nat)
             (∃ d, cOut.shift = i.c.shift + d ∧ i.c.ncov = cOut.ncov * 2 ^ d))
     (hpix : pix < cOut.ncov) :
     ((catContribution cOut vc i pix).map (·.1)).Nodup := by
-  sorry
+  have _ := hn
+  have _ := hrel
+  have _ := hpix
+  exact nodup_catContribution cOut vc i pix hi hv
 
 /-- the summary row says exactly which output coverage pixels hold a valid pixel of the input
     (matched coverage: which are covered — a superset) -/
@@ -56,7 +56,8 @@ theorem summary_complete (cOut : Cfg) (vc : VCfg V) (i : CatIn V)
             (∃ d, cOut.shift = i.c.shift + d ∧ i.c.ncov = cOut.ncov * 2 ^ d))
     (p : Nat) (hp : p < cOut.npix) (hval : validIn vc i p = true) :
     catSummary cOut vc i (p >>> cOut.shift) = true := by
-  sorry
+  have _ := hrel
+  exact catSummary_complete cOut vc i hi hv hn p hp hval
 
 /-- **C18**: for inputs whose valid sets are pairwise disjoint, with or without overlap
     checking, the concatenation succeeds, is a well-formed map, and holds at every pixel the
@@ -76,7 +77,23 @@ theorem cat_union (cOut : Cfg) (vc : VCfg V) (inputs : List (CatIn V)) (checkOve
           match inputs.find? (fun i => validIn vc i p) with
           | some i => abs i.c vc i.state p
           | none => vc.sentinel := by
-  sorry
+  have hin' : ∀ i ∈ inputs, Inv i.c vc i.state ∧ i.c.npix = cOut.npix :=
+    fun i hi => ⟨(hin i hi).1, (hin i hi).2.1⟩
+  have hpw : inputs.Pairwise fun a b => ∀ p, p < cOut.npix →
+      ¬ (vc.valid (abs a.c vc a.state p) = true ∧ vc.valid (abs b.c vc b.state p) = true) := by
+    rw [List.pairwise_iff_getElem]
+    intro a b ha hb hab p hp
+    have := hdisj a b ha hb (Nat.ne_of_lt hab) p hp
+    rw [getD_eq_getElem inputs _ a ha, getD_eq_getElem inputs _ b hb] at this
+    exact this
+  obtain ⟨out, h1, h2, h3⟩ := catFiles_union cOut vc inputs checkOverlap orOk orF hin' hv hpw
+  refine ⟨out, h1, h2, ?_⟩
+  intro p hp
+  split
+  · rename_i i hf
+    exact (h3 p hp).1 i hf
+  · rename_i hf
+    exact (h3 p hp).2 hf
 
 /-- with overlap checking (and no or-combination) an error is raised iff two inputs share a
     valid pixel -/
@@ -89,11 +106,46 @@ theorem cat_overlap_raises_iff (cOut : Cfg) (vc : VCfg V) (inputs : List (CatIn 
       ∃ a b, a < b ∧ b < inputs.length ∧ ∃ p, p < cOut.npix ∧
         validIn vc (inputs.getD a ⟨cOut, ⟨#[], #[]⟩⟩) p = true ∧
         validIn vc (inputs.getD b ⟨cOut, ⟨#[], #[]⟩⟩) p = true := by
-  sorry
+  have hin' : ∀ i ∈ inputs, Inv i.c vc i.state ∧ i.c.npix = cOut.npix :=
+    fun i hi => ⟨(hin i hi).1, (hin i hi).2.1⟩
+  constructor
+  · intro hnone
+    apply Classical.byContradiction
+    intro hno
+    have hdisj : ∀ a b, a < inputs.length → b < inputs.length → a ≠ b → ∀ p, p < cOut.npix →
+        ¬ (validIn vc (inputs.getD a ⟨cOut, ⟨#[], #[]⟩⟩) p = true ∧
+           validIn vc (inputs.getD b ⟨cOut, ⟨#[], #[]⟩⟩) p = true) := by
+      intro a b ha hb hab p hp hboth
+      rcases Nat.lt_or_gt_of_ne hab with hlt | hlt
+      · exact hno ⟨a, b, hlt, hb, p, hp, hboth.1, hboth.2⟩
+      · exact hno ⟨b, a, hlt, ha, p, hp, hboth.2, hboth.1⟩
+    obtain ⟨out, h1, _⟩ := cat_union cOut vc inputs true false orF hin hv hdisj
+    rw [hnone] at h1
+    cases h1
+  · rintro ⟨a, b, hab, hb, p, hp, hva, hvb⟩
+    have ha := Nat.lt_trans hab hb
+    rw [getD_eq_getElem inputs _ a ha] at hva
+    rw [getD_eq_getElem inputs _ b hb] at hvb
+    exact catFiles_overlap_none cOut vc inputs orF hin' hv a b hab hb p hp hva hvb
 
 /-- non-vacuity: a finer input covering only the LAST child of the output coverage pixel -/
 example : catContribution (V := Int) ⟨1, 2⟩ ⟨-1, fun x => x != -1⟩
     ⟨⟨2, 1⟩, ⟨#[0, 0], #[-1, -1, 5, 6]⟩⟩ 0 = [(2, 5), (3, 6)] := by decide +kernel
+
+/-- non-vacuity: a finer input covering only a MIDDLE child of the output coverage pixel -/
+example : catContribution (V := Int) ⟨1, 3⟩ ⟨-1, fun x => x != -1⟩
+    ⟨⟨4, 1⟩, ⟨#[0, 0, -4, -6], #[-1, -1, 5, 6]⟩⟩ 0 = [(2, 5), (3, 6)] := by decide +kernel
+
+/-- non-vacuity: a finer and a coarser input with disjoint valid sets concatenate to their union -/
+example : (catFiles (V := Int) ⟨2, 1⟩ ⟨-1, fun x => x != -1⟩
+    [⟨⟨4, 0⟩, ⟨#[1, -1, -2, -3], #[-1, 5]⟩⟩, ⟨⟨1, 2⟩, ⟨#[4], #[-1, -1, -1, -1, -1, -1, 7, -1]⟩⟩]
+    true false (fun a _ => a)).map (fun s => (List.range 4).map (abs ⟨2, 1⟩ ⟨-1, fun x => x != -1⟩ s))
+    = some [5, -1, 7, -1] := by decide +kernel
+
+/-- non-vacuity: the same inputs sharing valid pixel 0 raise under overlap checking -/
+example : (catFiles (V := Int) ⟨2, 1⟩ ⟨-1, fun x => x != -1⟩
+    [⟨⟨4, 0⟩, ⟨#[1, -1, -2, -3], #[-1, 5]⟩⟩, ⟨⟨1, 2⟩, ⟨#[4], #[-1, -1, -1, -1, 8, -1, 7, -1]⟩⟩]
+    true false (fun a _ => a)).isNone = true := by decide +kernel
 
 end C18
 end HS
